@@ -282,8 +282,11 @@ func (s *backendSuite) do(t []string) string {
 	switch pos[0] {
 	case "create", "update", "delete":
 		s.setFaults(opts)
-		return s.runOp(ctx, s.b, t)
+		res := s.runOp(ctx, s.b, t)
+		s.setFaults(nil) // a directive no commit of this request consumed does not leak into later ops
+		return res
 	case "get", "list", "count", "compact", "parts", "stream":
+		s.setFaults(nil)
 		return s.runOp(ctx, s.b, t)
 	case "echo":
 		return strings.Join(t, " ")
@@ -351,9 +354,20 @@ func (s *backendSuite) do(t []string) string {
 			w.cancel()
 		}
 		return "cancel " + pos[1]
-	case "retryq":
-		// wait until the retry queue has the wanted minimum revision (0 = empty)
-		return "retryq n/a"
+	case "retry":
+		// release one parked retry step (gate retry.step must be armed) with the given fault for its commit
+		s.setFaults(opts)
+		s.hmu.Lock()
+		g := s.hooks["retry.step"]
+		if g == nil || len(g.waiting) == 0 {
+			s.hmu.Unlock()
+			return "retry none"
+		}
+		ch := g.waiting[0]
+		g.waiting = g.waiting[1:]
+		s.hmu.Unlock()
+		close(ch)
+		return "retry ok"
 	case "dellog":
 		s.c.mu.Lock()
 		defer s.c.mu.Unlock()
